@@ -1,7 +1,9 @@
 (* C19 -- UML class generation is complete, namespace-faithful and self-consistent.
    Only statements, each closed by [exact], each followed by Print Assumptions. *)
 From Coq Require Import String Ascii List Bool.
-From KV Require Import Lib.Str Model.Vpp Gen.UmlSrc Model.Uml Spec.UmlSpec Proofs.UmlProofs Proofs.UmlFiles.
+From KV Require Import Lib.Str Model.Vpp Gen.UmlSrc Model.Uml Spec.UmlSpec Proofs.UmlProofs Proofs.UmlFiles
+                       Model.UmlBlob Model.UmlWriter Gen.UmlBlobShipped Proofs.UmlBlobDefs Proofs.UmlBlobStruct Proofs.UmlBlobText
+                       Proofs.UmlBlobTop Proofs.UmlBlobRound Proofs.UmlBlobVis Proofs.UmlBlobCompose Proofs.UmlBlobCalib Proofs.UmlBlobPins.
 Import ListNotations.
 Open Scope string_scope.
 
@@ -125,3 +127,106 @@ Theorem C19_namespace_balanced : forall ns body,
   /\ join "::" (split2 ":" ":" ns) = ns.
 Proof. exact namespace_balanced. Qed.
 Print Assumptions C19_namespace_balanced.
+
+(* ====================================================================================================================
+   THE INPUT ADAPTOR: project rows -> the class diagram the theorems above speak about (Model/UmlBlob.v: adaptor).
+   W : wdiagram = a class diagram as the ASSUMED Visual Paradigm writer lays it out (Model/UmlWriter.v: structured blobs of
+   fields, reference lists and owned elements, in any order); encode_cdiagram W = the project holding only W's rows;
+   chosts d W = the project d contains W's rows, every other row (other diagrams, their shapes interleaved, unrelated model
+   elements, any order) arbitrary. *)
+
+(* The text layer is transparent.  For EVERY structured blob n whose keys, values, ids, names are plain text without braces
+   (wf_node, nb_node) and that holds no apostrophe, ParseBLOB_Recursive applied to str(bytes) of its printed form returns
+   exactly the dictionary the blob stands for (top_pv: fields by key with later duplicates overriding, reference lists as
+   key_0, key_1, ..., owned elements as child_0, child_1, ... in text order, each with id / name / type).  Composition of
+   the stack-machine theorem (parse_blob_sem), the field theorem (values_segments) and mass_replace o str(bytes) = deletion
+   of the separator characters (mass_repr). *)
+Theorem C19_adaptor_text_transparent : forall n : wnode,
+  wf_node n = true -> nb_node n = true -> no_char SQ (print_node n) = true ->
+  parse_blob (py_str_bytes (print_node n)) = Some (top_pv n).
+Proof. exact parse_top. Qed.
+Print Assumptions C19_adaptor_text_transparent.
+
+(* Read-back at the dictionary level.
+   FULL STATEMENT (not proved): load_cdiagram (encode_cdiagram (tree_of S)) = Some S for a SEMANTIC class diagram S (classes
+   with flags, operations, parameters ...) and a semantic writer tree_of.  What is proved: loading the project the writer
+   produces equals loading with ParseBLOB_Recursive replaced by the structural reading of the drawn blobs (struct_of); the
+   object builders (stereotypes -> flags, operations, parameters, namespaces ...) then work on those dictionaries; that they
+   rebuild a semantic class is tied by differential runs only (harness: synthesised projects read back). *)
+Theorem C19_adaptor_roundtrip_partial : forall W : wdiagram, wf_drawn W = true ->
+  load_cdiagram (encode_cdiagram W) (wd_name W) = load_gen (get_model_element (cmelem_rows W)) (struct_of W) (cdelem_rows W).
+Proof. exact load_struct. Qed.
+Print Assumptions C19_adaptor_roundtrip_partial.
+
+(* Elements that are not on the selected diagram have no influence: whatever the diagram's own rows give, every project
+   that hosts them gives (any two hosting projects agree). *)
+Theorem C19_adaptor_others_no_influence : forall (d1 d2 : db) (W : wdiagram) (c : cdiagram),
+  chosts d1 W = true -> chosts d2 W = true -> adaptor (encode_cdiagram W) (wd_name W) = Some c ->
+  adaptor d1 (wd_name W) = Some c /\ adaptor d2 (wd_name W) = Some c.
+Proof. exact adaptor_others_no_influence. Qed.
+Print Assumptions C19_adaptor_others_no_influence.
+
+(* Every class diagram the adaptor returns, from ANY rows, has public / protected / private operations only (the reader maps
+   'package' to public + static): the hypothesis wf_vis of C19_decl_def holds for everything read from a project file. *)
+Theorem C19_adaptor_visibilities : forall (d : db) (name : string) (c : cdiagram), adaptor d name = Some c -> wf_vis c = true.
+Proof. exact adaptor_wf_vis. Qed.
+Print Assumptions C19_adaptor_visibilities.
+
+(* The generator theorems from the project rows (under the writer assumption). *)
+Theorem C19_files_from_project : forall (d : db) (W : wdiagram) (c : cdiagram) (nsf : bool),
+  chosts d W = true -> adaptor (encode_cdiagram W) (wd_name W) = Some c -> files_hyp nsf c = true ->
+  adaptor d (wd_name W) = Some c /\ files_of template_files nsf c = expected_files nsf c.
+Proof. exact files_from_project. Qed.
+Print Assumptions C19_files_from_project.
+
+Theorem C19_decl_def_from_project : forall (d : db) (W : wdiagram) (c : cdiagram) (k : cls) (P : entry -> bool),
+  chosts d W = true -> adaptor (encode_cdiagram W) (wd_name W) = Some c ->
+  acyclic c = true -> closed c = true -> In k (classes c) ->
+  adaptor d (wd_name W) = Some c
+  /\ exists dl df, decls_of (List.length (classes c)) c k = Some dl /\ defs_of (List.length (classes c)) c k = Some df
+                   /\ count P dl = count P df.
+Proof. exact decl_def_from_project. Qed.
+Print Assumptions C19_decl_def_from_project.
+
+Theorem C19_realised_from_project : forall (d : db) (W : wdiagram) (c : cdiagram) fuel vis dcl (k : cls) (i : inh) (p : cls) (o : oper) l,
+  chosts d W = true -> adaptor (encode_cdiagram W) (wd_name W) = Some c ->
+  In i (inhs c) -> contains (c_id k) (i_to i) = true -> i_real i = true ->
+  find_class (classes c) (i_from i) = Some p -> c_pure p = true ->
+  In o (c_ops p) -> vis_match vis o = true -> c_name k <> "" ->
+  existsb (key_eqb (sig_key o)) (declared_of k) = false ->
+  ops_of (S (S fuel)) c vis "" dcl k = Some l ->
+  adaptor d (wd_name W) = Some c
+  /\ In {| en_class := c_name k; en_owner := c_name p; en_owner_pure := true; en_realised := true; en_op := o |} l.
+Proof. exact realised_from_project. Qed.
+Print Assumptions C19_realised_from_project.
+
+(* Calibration and non-vacuity on the shipped project (Gen/UmlBlobShipped.v, regenerated from kojen/test/blob.xml on every
+   run): the assumed writer reproduces every row the two class diagrams draw or refer to, byte for byte, between the rows of
+   the other diagrams; the reader model loads both (10 and 20 classes, 7 inheritance entries each), also from the projects
+   holding only their own rows; 38 of 39 and 40 of 49 of their blobs lie in the domain of the text theorem (the others hold an
+   HTML documentation with braces and separators). *)
+Theorem C19_adaptor_calibration :
+  (forallb (chosts shipped_cdb) shipped_W = true /\ map wd_name shipped_W = ["ProtocolStack"; "TestClassDiagram"])
+  /\ map (fun W => (List.length (all_nodes W), List.length (filter (fun n => wf_node n && nb_node n && no_char SQ (print_node n)) (all_nodes W)))) shipped_W
+     = [(39, 38); (49, 40)].
+Proof. exact (conj calib_cwriter calib_domain). Qed.
+Print Assumptions C19_adaptor_calibration.
+
+Example C19_adaptor_nonvacuous :
+  forallb (fun se => wf_node (we_node (snd se))) (wd_drawn (one_class_W "Run")) = true
+  /\ op_names (adaptor (encode_cdiagram (one_class_W "Run")) "D") = Some [["Run"]].
+Proof. exact one_class_ok. Qed.
+Print Assumptions C19_adaptor_nonvacuous.
+
+(* Outside the domain (known finding K-C19-6): an operation drawn as operator< is read back as operator. *)
+Theorem C19_adaptor_name_refuted :
+  op_names (adaptor (encode_cdiagram (one_class_W "operator<")) "D") = Some [["operator"]]
+  /\ forallb (fun se => wf_node (we_node (snd se))) (wd_drawn (one_class_W "operator<")) = false.
+Proof. exact name_with_separator_refuted. Qed.
+Print Assumptions C19_adaptor_name_refuted.
+
+(* The adaptor's source still has the shape the model was written against: every string literal (keys, type names, codes,
+   stereotype names) of the modelled functions, in source order (Gen/UmlBlobSrc.v is regenerated on every run). *)
+Theorem C19_adaptor_source_shape : adaptor_literals_expected.
+Proof. exact pins_all. Qed.
+Print Assumptions C19_adaptor_source_shape.
